@@ -434,6 +434,67 @@ pub fn gen_op(
     }
 }
 
+/// Two batches to insert CONCURRENTLY (from two threads at the same instant).  Whatever the schedule, the outcome
+/// must be explained by one of the two sequential orders (Trace_Store "par" events).  Families: the same batch
+/// twice; overlapping batches; an honest batch and an adjacent batch of a fork (only one of them can be stored);
+/// the two halves that close a gap; an independent pair.
+pub fn gen_par(rng: &mut StdRng, u: &Universe, stored: &[(u64, u64)]) -> Option<(Vec<ExtendedHeader>, Vec<ExtendedHeader>)> {
+    let len = u.len;
+    let hon = |lo: u64, hi: u64| -> Vec<ExtendedHeader> { (lo..=hi).filter(|h| *h >= 1 && *h <= len).map(|h| u.a[(h - 1) as usize].clone()).collect() };
+    // a free stretch next to the stored ranges: above the head, or the gap below the top range
+    let head = stored.last().map(|r| r.1).unwrap_or(0);
+    let (lo, hi) = if head + 2 <= len && rng.gen_bool(0.6) {
+        (head + 1, (head + rng.gen_range(2..=8)).min(len))
+    } else if let Some(top) = stored.last() {
+        let below = if stored.len() >= 2 { stored[stored.len() - 2].1 } else { 0 };
+        if top.0 >= below + 3 { ((top.0 - rng.gen_range(2..=6).min(top.0 - below - 1)).max(below + 1), top.0 - 1) } else { return None }
+    } else {
+        (1.max(len / 2), (len / 2 + 6).min(len))
+    };
+    if hi < lo + 1 {
+        return None;
+    }
+    let mid = rng.gen_range(lo..hi);
+    let pair = match rng.gen_range(0..5) {
+        0 => (hon(lo, hi), hon(lo, hi)),
+        1 => (hon(lo, mid), hon(lo.max(2) - 1, hi)),
+        2 => (hon(mid, hi), hon(lo, mid)),
+        3 => (hon(lo, mid), hon(mid + 1, hi)),
+        _ => {
+            // honest lower part, fork upper part (heights above the fork's first one, so that it links to the fork)
+            let f = u.forks.iter().filter(|f| f.len() >= 2).find(|f| { let first = f[0].height(); first < hi && first + 1 >= lo });
+            match f {
+                Some(f) => {
+                    let first = f[0].height();
+                    let cut = (first + 1).max(lo + 1).min(hi);
+                    let upper: Vec<ExtendedHeader> = f.iter().filter(|h| h.height() >= cut && h.height() <= hi).cloned().collect();
+                    if upper.is_empty() { (hon(lo, mid), hon(mid + 1, hi)) } else { (hon(lo, cut - 1), upper) }
+                }
+                None => (hon(lo, mid), hon(mid + 1, hi)),
+            }
+        }
+    };
+    if pair.0.is_empty() || pair.1.is_empty() { None } else { Some(pair) }
+}
+
+/// Run the two inserts from two OS threads released by a barrier.
+fn insert_concurrently<S: Store>(s: &S, a: Vec<ExtendedHeader>, b: Vec<ExtendedHeader>) -> (u64, u64) {
+    let barrier = std::sync::Barrier::new(2);
+    std::thread::scope(|sc| {
+        let ha = sc.spawn(|| {
+            let rt = tokio::runtime::Builder::new_current_thread().enable_all().build().unwrap();
+            barrier.wait();
+            rt.block_on(async { code(&s.insert(a).await) })
+        });
+        let hb = sc.spawn(|| {
+            let rt = tokio::runtime::Builder::new_current_thread().enable_all().build().unwrap();
+            barrier.wait();
+            rt.block_on(async { code(&s.insert(b).await) })
+        });
+        (ha.join().unwrap_or(99), hb.join().unwrap_or(99))
+    })
+}
+
 async fn history<S: Store>(
     s: &S,
     backend: &str,
@@ -469,6 +530,52 @@ async fn history<S: Store>(
             }
         }
         let pruned_runs: Vec<(u64, u64)> = pruned.as_ref().iter().map(|r| (*r.start(), *r.end())).collect();
+        if rng.gen_bool(0.07) {
+            if let Some((a, b)) = gen_par(&mut rng, &u, &stored) {
+                let mut ids = (vec![], vec![]);
+                for (batch, out) in [(&a, &mut ids.0), (&b, &mut ids.1)] {
+                    for h in batch {
+                        let (id, d) = it.header(h);
+                        if let Some(d) = d {
+                            tw.emit(json!({"name": "hdr", "d": d}));
+                        }
+                        out.push(id);
+                    }
+                }
+                let (ra, rb) = insert_concurrently(s, a, b);
+                let mut ev = json!({"name": "par", "a": ids.0, "b": ids.1, "ra": ra, "rb": rb});
+                if ra == 99 || rb == 99 {
+                    ev["name"] = json!("panic");
+                    ev["op"] = json!("concurrent-insert");
+                    ev["why"] = json!("a concurrent insert panicked");
+                    tw.emit(ev);
+                    sum.add("panics", 1);
+                    break;
+                }
+                match std::panic::AssertUnwindSafe(project(s, &it, len)).catch_unwind().await {
+                    Ok(st) => ev["st"] = st,
+                    Err(_) => {
+                        ev["name"] = json!("panic");
+                        ev["op"] = json!("query-after-concurrent-insert");
+                        ev["why"] = json!("query panicked");
+                        tw.emit(ev);
+                        sum.add("panics", 1);
+                        break;
+                    }
+                }
+                // from here on the two back-ends may legitimately be in different states (either order is allowed)
+                results.push(777);
+                sum.add("concurrent_insert_pairs", 1);
+                if ra != R_OK || rb != R_OK {
+                    sum.add("concurrent_insert_pairs_with_a_refusal", 1);
+                }
+                for p in ["C19", "C20", "C21"] {
+                    sum.case(p, Some(format!("{backend}/{run}/{}", tw.events)), || ev.clone());
+                }
+                tw.emit(ev);
+                continue;
+            }
+        }
         let op = gen_op(&mut rng, &u, &stored, &stored_hashes, &pruned_runs);
         let mut ev = match &op {
             Op::Insert(b) => {
@@ -563,7 +670,8 @@ pub fn record(args: &Args) {
                 RedbStore::in_memory().await.unwrap()
             };
             let r2 = history(&redb, "redb", seed, run, ops, len, &mut tw, &mut sum).await;
-            if let Some(i) = (0..r1.len().min(r2.len())).find(|i| r1[*i] != r2[*i]) {
+            let upto = r1.iter().position(|x| *x == 777).unwrap_or(r1.len()).min(r2.iter().position(|x| *x == 777).unwrap_or(r2.len()));
+            if let Some(i) = (0..upto).find(|i| r1[*i] != r2[*i]) {
                 disagreements.push(json!({"run": run, "op_index": i, "mem": r1[i], "redb": r2[i]}));
             }
         }
